@@ -413,7 +413,7 @@ Proof.
   assert (table_eqb X Y = false) as NEb by (destruct X, Y; try reflexivity; contradiction).
   rewrite NEb in A. rewrite forallb_forall in A. specialize (A o SX). rewrite forallb_forall in A.
   specialize (A p SY). rewrite EQ in A.
-  change (serves_default g t X a n && str_in n ["neutron"] = true) in A.
+  rewrite Bool.implb_true_l in A.
   apply andb_true_iff in A. destruct A as [A1 A2].
   split; [exact A1|]. apply str_in_In in A2. destruct A2 as [A2|[]]. symmetry. exact A2.
 Qed.
